@@ -1,5 +1,25 @@
 """C09 — backprop through a partially cleared graph fails loudly, never silently."""
+import json
+import os
+import subprocess
+
 from lib.checkdef import default_replay_cmd, run_property
+from lib.report import REPO, VENV_PY, VERIF
+
+
+_memo = {}
+
+
+def _replay(rep, r):
+    if "out" not in _memo:
+        env = dict(os.environ, PYTHONPATH=os.path.join(REPO, "src") + os.pathsep + VERIF)
+        _memo["p"] = subprocess.run([VENV_PY, os.path.join(VERIF, "runtime", "c09_replay.py")], capture_output=True, text=True, env=env, timeout=300)
+        p = _memo["p"]
+        lines = [l for l in p.stdout.splitlines() if l.startswith("{")]
+        _memo["out"] = json.loads(lines[-1]) if lines else dict(confirmed=False, note=p.stderr[-300:])
+    out = _memo["out"]
+    path = rep.write_replay(r.name, dict(obligation=r.to_json(), solver_output=r.model, confirmed=out.get("confirmed", False), replay=out))
+    return path, out.get("confirmed", False), out
 
 
 def run(tier, seed):
@@ -7,6 +27,7 @@ def run(tier, seed):
         "C09", tier, seed, level="other",
         deductive=[("c01_step", r"C09\.raise")],
         bounded=[("state_bounded.py", ["--check", "C09"])],
+        replay=_replay,
         trusted=["pyvc/graphdom.py heap model"],
         assumptions=[
             "deductive part (C09.raise): Operation.backward raises InvalidBackprop exactly at a non-constant input whose consumer set is empty and never passes such an input to the rule; "
